@@ -30,7 +30,7 @@ func (g *anteG) emit(format string, a ...interface{}) {
 }
 
 func GenerateAnte(r *rng.R, steps int) []string {
-	g := &anteG{r: r, height: 2, vp: 2, feeder: map[int]string{}, former: map[int]string{}, prev: map[int]*commit{}}
+	g := &anteG{r: r, height: 1, vp: 2, feeder: map[int]string{}, former: map[int]string{}, prev: map[int]*commit{}}
 	g.vp = rng.Pick(r, []uint64{2, 3, 5})
 	g.emit("setoparams %d %s 0.01 %d %d", g.vp, rng.Pick(r, []string{"0.5", "0.67"}), g.vp*1000, g.vp*1000-1)
 	g.fee = rng.Pick(r, []string{"1", "0.5", "0", "0.333333333333333333", "0.000000000000000001"})
@@ -50,6 +50,10 @@ func GenerateAnte(r *rng.R, steps int) []string {
 	g.tx("auto", "-", "2000000000000:uusdc", 1000000100000, fmt.Sprintf("createtenant(a1~=uusdc~%d)", 1+r.N(3)))
 	g.tenants = append(g.tenants, &tenant{id: 1, admins: []string{"a1"}, denom: "uusdc", method: "native"})
 	g.tx("auto", "-", "20000:uusdc", 100000, "deposit(a1~1~5000~=uusdc)")
+	if r.P(1, 2) {
+		// still in the chain's first block: a validator may be created only by a genesis transaction (height 0) or by governance
+		g.tx("auto", "-", genericFee, 500000, fmt.Sprintf("createval(%s)", rng.Pick(r, accs)))
+	}
 	for i := 0; i < steps; i++ {
 		g.step()
 	}
@@ -274,6 +278,15 @@ func (g *anteG) noteConsent(m string, v int) {
 
 func (g *anteG) oracleTx() {
 	r := g.r
+	if r.P(1, 10) {
+		// a stranger asks for a gas estimate of a consent naming itself (nobody checks signatures there), then tries to vote for the validator
+		v := r.N(world.NVal)
+		st := rng.Pick(r, accs[6:])
+		g.emit("sim signers=%s payer=- fee=- gas=200000 msgs=consent(v%d~%s)", st, v, st)
+		rs := g.roundStart()
+		g.tx("auto", "-", "-", 200000, fmt.Sprintf("prevote(%s~v%d~%s~%d)", st, v, e(VoteHash("sim", "-")), rs))
+		return
+	}
 	v := r.N(world.NVal)
 	feeder := g.who(v)
 	m := g.oracleMsg(v, feeder)
@@ -398,6 +411,12 @@ func (g *anteG) grantTx() {
 
 func (g *anteG) otherTx() {
 	r := g.r
+	if r.P(1, 8) && len(g.tenants) > 0 {
+		// a gas estimate of a settlement transaction that changes the payout period: no trace, the period stays
+		t := g.tenants[0]
+		g.emit("sim signers=%s payer=- fee=- gas=100000 msgs=setperiod(%s~%d~1)", t.admins[0], t.admins[0], t.id)
+		return
+	}
 	switch r.N(5) {
 	case 0:
 		g.tx("auto", "-", genericFee, 300000, g.sendMsg())
